@@ -1,10 +1,14 @@
 import Enc.Model.Conc.CowCache
 import Enc.Lemmas.ConcCow
+import Enc.Model.Conc.Pool
+import Enc.Gen.Pools
+import Enc.Lemmas.ConcPool
 /-!
 # C09 — all packages are safe and deterministic under concurrent first use
 Property theorems only (proofs in Enc/Lemmas/ConcCow.lean). The model is the protocol shared by json's `cache`,
-proto's `codecCache` and thrift's `encoderCache` / `decoderCache`; data races, sync.Pool exclusivity and the
-mutex-protected `proto.TypeOf` cache are outside the model (race-detector stress, DESIGN.md §5 C09).
+proto's `codecCache` and thrift's `encoderCache` / `decoderCache`; data races and the mutex-protected `proto.TypeOf`
+cache are outside the model (race-detector stress, DESIGN.md §5 C09).  sync.Pool exclusivity (last sentence of C09) is
+the second half of this file: skeletons regenerated from /repo (`Enc/Gen/Pools.lean`), `Disciplined`, `pool_exclusive`.
 -/
 namespace Enc.Props.C09
 open Enc Enc.Model.Conc
@@ -48,3 +52,83 @@ theorem lost_update_witness :
   decide
 
 end Enc.Props.C09
+
+/-! ## sync.Pool exclusivity (last sentence of C09)
+`Enc/Gen/Pools.lean` is regenerated from /repo's working tree on every run (tools/extract/pools.go): one skeleton per
+function that obtains a pooled object or touches a field holding one. Model and discipline: Enc/Model/Conc/Pool.lean;
+proofs: Enc/Lemmas/ConcPool.lean. -/
+namespace Enc.Props.C09.Pool
+open Enc.Model.Conc.Pool Enc.Gen.Pools Enc.Lemmas.ConcPool
+
+/-- THE PROOF OBLIGATION A CODE CHANGE BREAKS: every regenerated skeleton is disciplined (a site that leaks on an error
+path — Marshal does not Put when Append fails — is disciplined: leaking is safe) -/
+theorem all_sites_disciplined : allSites.all (fun s => Disciplined numVars numFields s.2) = true := by decide
+
+/-- **MAIN.** Any number of goroutines, each performing any sequence of calls of disciplined skeletons, any schedule:
+(1) no object is owned by two goroutines; (2) no owned object is free in a pool and no pool holds an object twice;
+(3) whatever a goroutine is about to use / hand to foreign code / Put / return, it owns; (4) an object a caller still
+references after its call ended is still owned by that goroutine. -/
+theorem pool_exclusive (nV nF : Nat) (progs : List (List PProg))
+    (hD : ∀ cs ∈ progs, ∀ p ∈ cs, Disciplined nV nF p = true) (sched : List (Nat × Nat)) :
+    let s := run (initState nV nF progs) sched
+    (∀ (i j : Nat) (ti tj : Thread), i ≠ j → s.threads[i]? = some ti → s.threads[j]? = some tj →
+        ∀ o ∈ ti.held, o ∉ tj.held) ∧
+    ((∀ (i : Nat) (ti : Thread), s.threads[i]? = some ti → ∀ o ∈ ti.held, o ∉ s.free.map (·.2)) ∧
+        (s.free.map (·.2)).Nodup) ∧
+    (∀ (i : Nat) (ti : Thread) (c : Nat), s.threads[i]? = some ti → ∀ o ∈ aboutToTouch ti c, o ∈ ti.held) ∧
+    (∀ (i : Nat) (ti : Thread), s.threads[i]? = some ti → ∀ o ∈ ti.kept, o ∈ ti.held) :=
+  Lemmas.ConcPool.pool_exclusive nV nF progs hD sched
+
+/-- the "results stable" half: an object a caller still references after its call ended is never again free and never
+handed to another goroutine, however the run continues -/
+theorem results_stable (nV nF : Nat) (progs : List (List PProg))
+    (hD : ∀ cs ∈ progs, ∀ p ∈ cs, Disciplined nV nF p = true) (sched more : List (Nat × Nat))
+    (i : Nat) (ti : Thread) (h : (run (initState nV nF progs) sched).threads[i]? = some ti) (o : Obj) (ho : o ∈ ti.kept) :
+    let s' := run (initState nV nF progs) (sched ++ more)
+    o ∉ s'.free.map (·.2) ∧ ∀ (j : Nat) (tj : Thread), j ≠ i → s'.threads[j]? = some tj → o ∉ tj.held :=
+  Lemmas.ConcPool.results_stable nV nF progs hD sched more i ti h o ho
+
+/-- the instance for /repo: goroutines calling any of the regenerated sites, in any order and number -/
+theorem repo_pools_exclusive (progs : List (List PProg)) (hS : ∀ cs ∈ progs, ∀ p ∈ cs, p ∈ allSites.map (·.2))
+    (sched : List (Nat × Nat)) (i j c : Nat) :
+    let s := run (initState numVars numFields progs) sched
+    touchesForeign s i j c = false ∧ touchesFree s i c = false ∧
+      (i ≠ j → keptHandedTo s i j = false) ∧ keptIsFree s i = false :=
+  Lemmas.ConcPool.no_violation numVars numFields progs
+    (fun cs hcs p hp => by
+      obtain ⟨x, hx, rfl⟩ := List.mem_map.mp (hS cs hcs p hp)
+      exact List.all_eq_true.mp all_sites_disciplined x hx) sched i j c
+
+/-- non-vacuity of the model (hand-written mini skeleton `v := P.Get(); use v; P.Put(v); return`, so that the example
+does not depend on the shape of /repo's functions): goroutine 0 finishes, goroutine 1 is handed the very object
+goroutine 0 returned to the pool — the pool does recycle —; nothing else is ever created -/
+example :
+    let p : PProg := .seqs [.ev (.get 0 (.var 0)), .ev (.use (.var 0)), .ev (.put 0 (.var 0)), .ret []]
+    let s := run (initState 1 0 [[p], [p]]) (List.replicate 8 (0, 0) ++ List.replicate 3 (1, 0))
+    Disciplined 1 0 p = true ∧ s.threads.map (·.held) = [[], [0]] ∧ s.free = [] ∧ s.fresh = 1 := by decide
+
+/-- non-vacuity for a field-held object (the Tokenizer life cycle, hand-written mini skeletons): `push` acquires into
+the field, `reset` releases and clears it; calling them in sequence leaves the object in the pool -/
+example :
+    let push : PProg := .seqs [.alts [.ev (.get 0 (.field 0)), .skip], .ev (.use (.field 0))]
+    let reset : PProg := .seqs [.alts [.ev (.put 0 (.field 0)), .skip], .ev (.clear (.field 0))]
+    Disciplined 0 1 push = true ∧ Disciplined 0 1 reset = true ∧
+      (run (initState 0 1 [[push, reset]]) (List.replicate 20 (0, 0))).free = [(0, 0)] := by decide
+
+/-- NEGATIVE WITNESS 1 (a seeded bug used against this project): `encoderBufferPool.Put(buf)` moved above
+`enc.writer.Write(b)`. The regenerated skeleton is rejected … -/
+theorem mutant_put_before_write_rejected : Disciplined 1 1 mutantEncode = false := by decide
+
+/-- … and not for show: in this two-goroutine interleaving goroutine 0 is about to hand to the writer a buffer that it
+no longer owns and that goroutine 1 owns -/
+theorem mutant_put_before_write_races :
+    touchesForeign (run (initState 1 1 [[mutantEncode], [mutantEncode]]) schedPutBeforeWrite) 0 1 0 = true := by decide
+
+/-- NEGATIVE WITNESS 2: Marshal returning `buf.data` un-copied when it is large: rejected … -/
+theorem mutant_return_uncopied_rejected : Disciplined 1 1 mutantMarshal = false := by decide
+
+/-- … and the buffer the first caller still references is handed to the second caller -/
+theorem mutant_return_uncopied_shared :
+    keptHandedTo (run (initState 1 1 [[mutantMarshal], [mutantMarshal]]) schedReturnUncopied) 0 1 = true := by decide
+
+end Enc.Props.C09.Pool
